@@ -1,0 +1,29 @@
+//go:build verif
+// +build verif
+
+// Package vhook provides trace points for model-based verification. With the
+// build tag "verif" a test harness can install a handler which records the
+// event (trace validation) or blocks the calling goroutine (schedule replay).
+package vhook
+
+import "sync/atomic"
+
+// Enabled tells whether trace points are compiled in.
+const Enabled = true
+
+// Handler is called at every trace point when installed.
+type Handler func(point string, kv ...interface{})
+
+var handler atomic.Value
+
+// Install sets the handler (nil removes it).
+func Install(h Handler) {
+	handler.Store(&h)
+}
+
+// At marks a trace point.
+func At(point string, kv ...interface{}) {
+	if p, ok := handler.Load().(*Handler); ok && p != nil && *p != nil {
+		(*p)(point, kv...)
+	}
+}
